@@ -168,6 +168,50 @@ def key_carried_events(ctx, blobs):
     return ev
 
 
+def embedded_flip_events(ctx, blobs):
+    """the back-signature (0x19) embedded in a signing subkey's binding signature is a signature too: every bit of its header and hashed
+    area flipped inside a key from the independent encoder; the key is re-imported and verified with itself."""
+    pgpy = import_pgpy()
+    from pgpy.constants import SignatureType
+    ev = []
+    fk = build.ForeignKey('ed25519')
+    sk = build.ForeignKey('ed25519', created=fk.created + 7)
+    kblob = build.transferable_key(fk, [b'Embedded <emb@example.org>'], subkeys=[(sk, 0x02)])
+    bind_body = [b for t_, b, r in build.read_packets(kblob) if t_ == 2][-1]
+    fb = build.read_sig_body(bind_body)
+    unh = bytes(fb['unhashed'])
+    assert unh[1] == 32, 'embedded signature expected first in the unhashed area'
+    cross = unh[2:2 + unh[0] - 1]
+    off = kblob.find(cross)
+    fc = build.read_sig_body(cross)
+    region = len(fc['region'])
+    osig = blobs.add(build.pkt(2, cross))
+    vkb = blobs.add(kblob)
+    osubj = sigs.subj_keys(blobs, kblob, fk.fingerprint.hex(), sk.fingerprint.hex())
+    signer = {'kb': vkb, 'idx': sigs.key_index(kblob, sk.fingerprint.hex())}
+
+    def outcome(blob):
+        with warnings.catch_warnings():
+            warnings.simplefilter('ignore')
+            try:
+                pub = pgpy.PGPKey.from_blob(blob)[0]
+                r = pub.verify(pub)
+                good = [x for x in r.good_signatures if x.signature.type == SignatureType.PrimaryKey_Binding]
+                return 'truthy' if good else 'falsy'
+            except Exception:
+                return 'raised'
+    if outcome(kblob) != 'truthy':
+        raise MachineryError('the embedded back-signature of the foreign key does not verify unmodified')
+    for bit in range(region * 8):
+        m = bytearray(kblob)
+        m[off + bit // 8] ^= 1 << (bit % 8)
+        res = outcome(bytes(m))
+        mcross = bytes(m[off:off + len(cross)])
+        ev.append({'k': 'attempt', 'osig': osig, 'osubj': osubj, 'signer': signer, 'asig': blobs.add(build.pkt(2, mcross)) if res == 'truthy' else 0, 'asubj': osubj, 'vkb': vkb,
+                   'result': res, 'mut': 'bit %d of hashed region (sp type 32 embedded back-signature)' % bit})
+    return ev
+
+
 def record_foreign(ctx, blobs, pub, pkt, hin, doc, t, critical, cname, form, kept, copies=None):
     e = {'k': 'foreign', 'sig': blobs.add(pkt), 'subj': sigs.subj_doc(blobs, doc), 'signed_over': blobs.add(hin),
          'sptype': t, 'critical': critical, 'cls': cname, 'form': form, 'clause': 'C05.foreign-verifies'}
@@ -287,6 +331,7 @@ def run(ctx):
     fev2, bev2 = rsa_signer_events(ctx, blobs)
     fev += fev2
     bev += bev2
+    bev += embedded_flip_events(ctx, blobs)
     ev = fev + bev
     for e in fev:
         ctx.case(('foreign', e['sptype'], e['critical'], e['cls'], e['form']))
